@@ -8,6 +8,7 @@ PROPERTY_MODULES = {
     "C10": ["contracts.c10"],
     "C19": ["contracts.c19"],
     "C16": ["contracts.c16"],
+    "C17": ["contracts.c17"],
     "C03": ["contracts.c03"],
     "C04": ["contracts.c04"],
     "C05": ["contracts.c05"],
